@@ -99,7 +99,7 @@ pub fn base_profile(prop: &'static str) -> Profile {
         ops: (10, 60),
         cancelable_pct: 0,
         intervals: &[0, 20_000, 200_000, 10_000_000],
-        ring_caps: &[(0, 1)],
+        ring_caps: &[(0, 8), (2, 1), (4, 1), (16, 1)],
         atomic_pct: 0,
         weights: &[
             (K::Root, 8),
